@@ -22,6 +22,7 @@ C17 d19-shift-pending-all-handles-dropped.case a80c80b
 C18 d15-void-source-conv-loses-exception.case 2354445
 C19 d18-extra-object-misaligned.case a583df8
 C06 d17-self-handle-popped-and-queued.case c198892
+C06 d22-self-merge-loses-handles.case e0dcb6a
 C07 d2-lost-grant-deadlock.case 6923116
 C07 d2-uaf-after-publish.case 6923116
 C10 d3-deadlock.case 1dee2ab
